@@ -77,6 +77,27 @@ impl std::fmt::Display for Op {
     }
 }
 
+impl Op {
+    /// Short form used in finding signatures, e.g. `RemoveChild(parent,ca)`.
+    pub fn compact(&self) -> String {
+        let v = serde_json::to_value(self).unwrap();
+        let m = v.as_object().unwrap();
+        let name = m["op"].as_str().unwrap().to_string();
+        let mut args = Vec::new();
+        for k in ["parent", "ca", "child", "publisher"] {
+            if let Some(x) = m.get(k).and_then(|x| x.as_str()) {
+                args.push(x.to_string());
+            }
+        }
+        // parent before child, ca alone
+        format!("{name}({})", args.join(","))
+    }
+}
+
+pub fn compact_path(ops: &[Op]) -> String {
+    ops.iter().map(|o| o.compact()).collect::<Vec<_>>().join(";")
+}
+
 #[derive(Clone, Debug, Serialize, Deserialize)]
 pub struct OpOutcome {
     pub ok: bool,
